@@ -49,7 +49,7 @@ pub fn shape_programs() -> Vec<(&'static str, Prog)> {
 }
 
 #[derive(Clone, Copy, PartialEq, Eq, Debug)]
-pub enum Slice { Wf, Viol, All, WfOrViol, WfOrPanic, WfOrMulti, WfOrViolOrPanic }
+pub enum Slice { Wf, Viol, All, WfOrViol, WfOrPanic, WfOrMulti, WfOrViolOrPanic, WfOrViolOrSelfConflict }
 
 fn in_slice(class: &Class, slice: Slice) -> bool {
   let f = &class.flags;
@@ -57,6 +57,9 @@ fn in_slice(class: &Class, slice: Slice) -> bool {
   match slice {
     Slice::Wf => class.wf(),
     Slice::WfOrPanic => { let mut g = *f; g.task_panic = false; !g.any() }
+    // programs in which a task also reads a resource it writes (pie rejects the task itself; C05/C06 obligations
+    // only concern DIFFERENT tasks, so their oracles stay sound there)
+    Slice::WfOrViolOrSelfConflict => f.self_conflict && !(f.read_before_generate || f.task_panic),
     Slice::WfOrViolOrPanic => !(f.read_before_generate || f.self_conflict || f.multi_dep),
     Slice::WfOrMulti => { let mut g = *f; g.multi_dep = false; !g.any() }
     Slice::Viol => !excluded && f.any_violation(),
@@ -130,7 +133,7 @@ fn reads_something(p: &Prog) -> bool { has_op(p, |o| matches!(o, Op::Read(..))) 
 
 /// One group of programs explored to one history depth.
 #[derive(Clone, Debug)]
-pub struct Group { pub enums: Vec<EnumCfg>, pub depth: usize, pub shapes: bool, pub gen_consumer_only: bool, pub crashes: usize, pub inject: bool, pub max_roots: Option<usize>, pub faulty: bool }
+pub struct Group { pub enums: Vec<EnumCfg>, pub depth: usize, pub shapes: bool, pub gen_consumer_only: bool, pub crashes: usize, pub inject: bool, pub max_roots: Option<usize>, pub faulty: bool, pub slice: Option<Slice> }
 
 /// Some task writes a resource that a different task reads (generator/consumer structure).
 pub fn gen_consumer(p: &Prog) -> bool {
@@ -157,7 +160,7 @@ pub fn run(args: &Args) -> i32 {
   if let Some(file) = &args.replay { return replay(args, prop, file, rep); }
   let quick = args.tier == Tier::Quick;
   let mut cfg = HistCfg {
-    prop, max_roots: 2, bottom_up: true, bu_then: false, bu_pre: false, bu_over_report: false, set_fail: false, crashes: 0,
+    prop, max_roots: 2, bottom_up: true, bu_then: false, bu_pre: false, bu_over_report: false, bu_twice: false, set_fail: false, crashes: 0,
     depth: 0, state_cap: 0, probe: false, scope_in_key: true,
     wall_cap: if quick { 45.0 } else { 2400.0 }, collect_digests: false, find_path_hash: None,
   };
@@ -192,39 +195,47 @@ pub fn run(args: &Args) -> i32 {
   let cw = |n: usize, r: u8, k: usize| { let mut e = EnumCfg::structural(n, r, k); e.ocs = vec![OC::Equals, OC::PieAlways]; e.write_rcs = vec![RC::Exact, RC::Exists]; e };
   let mut groups: Vec<Group> = if quick {
     vec![
-      Group { enums: vec![s(2, 2, 3)], depth: 5, shapes: true, gen_consumer_only: false, crashes: 0, inject: false, max_roots: None, faulty: false },
-      Group { enums: vec![s(3, 2, 2), rich(2, 2, 2)], depth: 4, shapes: false, gen_consumer_only: false, crashes: 0, inject: false, max_roots: None, faulty: false },
+      Group { enums: vec![s(2, 2, 3)], depth: 5, shapes: true, gen_consumer_only: false, crashes: 0, inject: false, max_roots: None, faulty: false, slice: None },
+      Group { enums: vec![s(3, 2, 2), rich(2, 2, 2)], depth: 4, shapes: false, gen_consumer_only: false, crashes: 0, inject: false, max_roots: None, faulty: false, slice: None },
       // generator/consumer programs one statement larger (conditional generators with an always-consistent require)
-      Group { enums: vec![s(2, 2, 4)], depth: 4, shapes: false, gen_consumer_only: true, crashes: 0, inject: false, max_roots: None, faulty: false },
+      Group { enums: vec![s(2, 2, 4)], depth: 4, shapes: false, gen_consumer_only: true, crashes: 0, inject: false, max_roots: None, faulty: false, slice: None },
     ]
   } else {
     vec![
-      Group { enums: vec![s(2, 2, 4), rich(2, 2, 3)], depth: 6, shapes: true, gen_consumer_only: false, crashes: 0, inject: false, max_roots: None, faulty: false },
-      Group { enums: vec![s(3, 2, 3), s(3, 3, 3)], depth: 5, shapes: false, gen_consumer_only: false, crashes: 0, inject: false, max_roots: None, faulty: false },
-      Group { enums: vec![s(4, 2, 3)], depth: 4, shapes: false, gen_consumer_only: false, crashes: 0, inject: false, max_roots: None, faulty: false },
+      Group { enums: vec![s(2, 2, 4), rich(2, 2, 3)], depth: 6, shapes: true, gen_consumer_only: false, crashes: 0, inject: false, max_roots: None, faulty: false, slice: None },
+      Group { enums: vec![s(3, 2, 3), s(3, 3, 3)], depth: 5, shapes: false, gen_consumer_only: false, crashes: 0, inject: false, max_roots: None, faulty: false, slice: None },
+      Group { enums: vec![s(4, 2, 3)], depth: 4, shapes: false, gen_consumer_only: false, crashes: 0, inject: false, max_roots: None, faulty: false, slice: None },
     ]
   };
   let filter: Box<dyn Fn(&Prog) -> bool> = Box::new(|p| reads_something(p));
   match prop {
     Prop::C01 | Prop::C02 => { crash_group = true; }
     Prop::C03 | Prop::C04 => {
-      cfg.probe = prop == Prop::C03; cfg.bu_over_report = true; cfg.bu_then = true; cfg.bu_pre = !quick; cfg.max_roots = if quick { 1 } else { 2 };
-      if quick { groups[0].depth = 4; }
+      cfg.probe = prop == Prop::C03; cfg.bu_over_report = true; cfg.bu_then = true; cfg.bu_twice = true; cfg.bu_pre = !quick; cfg.max_roots = if quick { 1 } else { 2 };
+      if quick { groups[0].depth = 4; groups[1] = Group { enums: vec![s(3, 2, 2)], depth: 4, shapes: false, gen_consumer_only: false, crashes: 0, inject: false, max_roots: None, faulty: false, slice: None }; }
+      // coarse read checkers next to exact ones on one task (a reported change that one checker ignores and another sees)
+      groups.push(Group { enums: vec![rich(2, 2, 2)], depth: 5, shapes: false, gen_consumer_only: false, crashes: 0, inject: false, max_roots: None, faulty: false, slice: None });
+      if !quick { groups.push(Group { enums: vec![s(2, 2, 5)], depth: 3, shapes: false, gen_consumer_only: true, crashes: 0, inject: false, max_roots: None, faulty: false, slice: None }); }
       // coarse write checkers: only the checker-relative oracles apply there (no from-scratch content comparison)
-      groups.push(Group { enums: vec![cw(2, 2, 4)], depth: 4, shapes: false, gen_consumer_only: true, crashes: 0, inject: false, max_roots: None, faulty: false });
-      groups.push(Group { enums: vec![if quick { nw(3, 1, 4) } else { nw(3, 1, 5) }], depth: 4, shapes: false, gen_consumer_only: false, crashes: 0, inject: false, max_roots: None, faulty: false });
-      if !quick { groups.push(Group { enums: vec![nw(4, 1, 5)], depth: 4, shapes: false, gen_consumer_only: false, crashes: 0, inject: false, max_roots: None, faulty: false }); }
-      groups.push(Group { enums: vec![if quick { sf(4, 2) } else { sf(4, 3) }], depth: 4, shapes: false, gen_consumer_only: false, crashes: 0, inject: false, max_roots: Some(2), faulty: false });
+      groups.push(Group { enums: vec![cw(2, 2, 4)], depth: 4, shapes: false, gen_consumer_only: true, crashes: 0, inject: false, max_roots: None, faulty: false, slice: None });
+      groups.push(Group { enums: vec![if quick { nw(3, 1, 4) } else { nw(3, 1, 5) }], depth: 4, shapes: false, gen_consumer_only: false, crashes: 0, inject: false, max_roots: None, faulty: false, slice: None });
+      if !quick { groups.push(Group { enums: vec![nw(4, 1, 5)], depth: 4, shapes: false, gen_consumer_only: false, crashes: 0, inject: false, max_roots: None, faulty: false, slice: None }); }
+      groups.push(Group { enums: vec![if quick { sf(4, 2) } else { sf(4, 3) }], depth: 4, shapes: false, gen_consumer_only: false, crashes: 0, inject: false, max_roots: Some(2), faulty: false, slice: None });
       if !quick { groups[0].depth = 5; groups[1].depth = 4; groups[2].depth = 3; }
     }
     Prop::C05 | Prop::C06 | Prop::C07 | Prop::C20 => {
       slice = Slice::WfOrViol; crash_group = true;
       if quick { groups[0].depth = 4; }
       // injected violations: one new one-statement task added to every well-formed generator/consumer program
-      groups.push(Group { enums: vec![s(2, 2, if quick { 3 } else { 4 })], depth: 4, shapes: true, gen_consumer_only: true, crashes: 0, inject: true, max_roots: None, faulty: false });
+      groups.push(Group { enums: vec![s(2, 2, if quick { 3 } else { 4 })], depth: 4, shapes: true, gen_consumer_only: true, crashes: 0, inject: true, max_roots: None, faulty: false, slice: None });
+      if prop == Prop::C05 || prop == Prop::C06 {
+        // a task that reads a resource and also writes it, next to another reader / writer of that resource
+        groups.push(Group { enums: vec![s(2, 2, 3)], depth: if quick { 3 } else { 5 }, shapes: false, gen_consumer_only: false, crashes: 0, inject: false, max_roots: None, faulty: false, slice: Some(Slice::WfOrViolOrSelfConflict) });
+        groups.push(Group { enums: vec![{ let mut e = s(2, 2, 4); e.ocs = vec![OC::PieAlways]; e.guards = false; e }], depth: if quick { 3 } else { 4 }, shapes: false, gen_consumer_only: true, crashes: 0, inject: false, max_roots: None, faulty: false, slice: Some(Slice::WfOrViolOrSelfConflict) });
+      }
       // require-structure family (value-dependent cycles of length up to 3, cycles appearing in later sessions)
       if prop == Prop::C07 || prop == Prop::C20 {
-        groups.push(Group { enums: vec![if quick { nw(3, 1, 4) } else { nw(3, 1, 5) }], depth: 4, shapes: false, gen_consumer_only: false, crashes: 0, inject: false, max_roots: None, faulty: false });
+        groups.push(Group { enums: vec![if quick { nw(3, 1, 4) } else { nw(3, 1, 5) }], depth: 4, shapes: false, gen_consumer_only: false, crashes: 0, inject: false, max_roots: None, faulty: false, slice: None });
       }
     }
     Prop::C08 => {
@@ -233,7 +244,7 @@ pub fn run(args: &Args) -> i32 {
       let mut e = EnumCfg::structural(if quick { 1 } else { 2 }, 1, if quick { 2 } else { 3 });
       e.read_rcs = vec![RC::Exact, RC::Exists];
       e.ocs = vec![OC::Equals, OC::IsZero];
-      groups.push(Group { enums: vec![e], depth: if quick { 5 } else { 6 }, shapes: false, gen_consumer_only: false, crashes: 0, inject: false, max_roots: None, faulty: false });
+      groups.push(Group { enums: vec![e], depth: if quick { 5 } else { 6 }, shapes: false, gen_consumer_only: false, crashes: 0, inject: false, max_roots: None, faulty: false, slice: None });
     }
     Prop::C09 => {
       let mut e = EnumCfg::structural(2, 2, if quick { 2 } else { 3 });
@@ -241,7 +252,7 @@ pub fn run(args: &Args) -> i32 {
       e.read_rcs = vec![RC::Exact, RC::Exists, RC::Always];
       e.write_rcs = vec![RC::Exact, RC::Exists, RC::Always];
       e.write_decl = true;
-      groups.push(Group { enums: vec![e], depth: if quick { 5 } else { 6 }, shapes: false, gen_consumer_only: false, crashes: 0, inject: false, max_roots: None, faulty: false });
+      groups.push(Group { enums: vec![e], depth: if quick { 5 } else { 6 }, shapes: false, gen_consumer_only: false, crashes: 0, inject: false, max_roots: None, faulty: false, slice: None });
     }
     Prop::C18 => { cfg.set_fail = true; map_faulty = true; }
     Prop::C19 => {
@@ -249,7 +260,7 @@ pub fn run(args: &Args) -> i32 {
       let ncr = if quick { 1 } else { 2 };
       let mut e = EnumCfg::structural(2, 1, if quick { 3 } else { 4 });
       e.panic_op = true;
-      let g = |enums: Vec<EnumCfg>, depth: usize, shapes: bool, crashes: usize| Group { enums, depth, shapes, gen_consumer_only: false, crashes, inject: false, max_roots: None, faulty: false };
+      let g = |enums: Vec<EnumCfg>, depth: usize, shapes: bool, crashes: usize| Group { enums, depth, shapes, gen_consumer_only: false, crashes, inject: false, max_roots: None, faulty: false, slice: None };
       groups = if quick {
         vec![
           // every crash point of every build transition (+ program panics + diagnosed aborts), follow-ups to depth 4
@@ -263,24 +274,24 @@ pub fn run(args: &Args) -> i32 {
     }
     Prop::C16 => {
       cfg.collect_digests = true; slice = Slice::WfOrViol; cfg.bu_then = true;
-      if quick { groups.truncate(2); groups[0].depth = 4; groups[1].depth = 3; } else { groups.truncate(2); groups[0].depth = 5; groups[1] = Group { enums: vec![s(3, 2, 3)], depth: 4, shapes: false, gen_consumer_only: false, crashes: 0, inject: false, max_roots: None, faulty: false }; }
+      if quick { groups.truncate(2); groups[0].depth = 4; groups[1].depth = 3; } else { groups.truncate(2); groups[0].depth = 5; groups[1] = Group { enums: vec![s(3, 2, 3)], depth: 4, shapes: false, gen_consumer_only: false, crashes: 0, inject: false, max_roots: None, faulty: false, slice: None }; }
       // queue order with several scheduled tasks (the order must come from topological ranks, not from set iteration)
-      groups.push(Group { enums: vec![if quick { sf(4, 2) } else { sf(4, 3) }], depth: if quick { 3 } else { 4 }, shapes: false, gen_consumer_only: false, crashes: 0, inject: false, max_roots: Some(2), faulty: false });
+      groups.push(Group { enums: vec![if quick { sf(4, 2) } else { sf(4, 3) }], depth: if quick { 3 } else { 4 }, shapes: false, gen_consumer_only: false, crashes: 0, inject: false, max_roots: Some(2), faulty: false, slice: None });
     }
     Prop::C17 => { slice = Slice::WfOrViol; cfg.bu_then = true; crate::runner::set_helper_mode_global(true);
       cfg.set_fail = true;
       if quick { groups.truncate(2); groups[0].depth = 4; groups[1].depth = 3; } else { groups[0].depth = 5; groups[1].depth = 4; }
       // failing checkers: start/end discipline around dependency checks that return an error
-      groups.push(Group { enums: vec![s(2, 2, if quick { 2 } else { 3 })], depth: 4, shapes: true, gen_consumer_only: false, crashes: 0, inject: false, max_roots: None, faulty: true });
+      groups.push(Group { enums: vec![s(2, 2, if quick { 2 } else { 3 })], depth: 4, shapes: true, gen_consumer_only: false, crashes: 0, inject: false, max_roots: None, faulty: true, slice: None });
     }
     _ => {}
   }
   if crash_group {
     // Histories with one aborted build (crash decoration at every crash point) over the smallest programs: what was
     // built before on the instance includes builds that did not finish.
-    groups.push(Group { enums: vec![s(2, 2, if quick { 2 } else { 3 })], depth: if quick { 4 } else { 5 }, shapes: true, gen_consumer_only: false, crashes: 1, inject: false, max_roots: None, faulty: false });
+    groups.push(Group { enums: vec![s(2, 2, if quick { 2 } else { 3 })], depth: if quick { 4 } else { 5 }, shapes: true, gen_consumer_only: false, crashes: 1, inject: false, max_roots: None, faulty: false, slice: None });
     // one resource, one statement more, one step deeper: abort, change, rebuild, change back, rebuild
-    groups.push(Group { enums: vec![s(2, 1, if quick { 3 } else { 4 })], depth: if quick { 5 } else { 6 }, shapes: false, gen_consumer_only: false, crashes: 1, inject: false, max_roots: Some(1), faulty: false });
+    groups.push(Group { enums: vec![s(2, 1, if quick { 3 } else { 4 })], depth: if quick { 5 } else { 6 }, shapes: false, gen_consumer_only: false, crashes: 1, inject: false, max_roots: Some(1), faulty: false, slice: None });
   }
   // Experiment overrides (not used by the registered commands).
   if let Ok(e) = std::env::var("VERIF_GROUPS") {
@@ -288,7 +299,7 @@ pub fn run(args: &Args) -> i32 {
     let base = groups[0].enums[0].clone();
     groups = e.split(';').filter_map(|g| {
       let (d, en) = g.split_once(':')?;
-      Some(Group { enums: en.split('+').filter_map(|t| parse_enum(&base, t)).collect(), depth: d.parse().ok()?, shapes: true, gen_consumer_only: false, crashes: 0, inject: false, max_roots: None, faulty: false })
+      Some(Group { enums: en.split('+').filter_map(|t| parse_enum(&base, t)).collect(), depth: d.parse().ok()?, shapes: true, gen_consumer_only: false, crashes: 0, inject: false, max_roots: None, faulty: false, slice: None })
     }).collect();
   }
   if let Ok(w) = std::env::var("VERIF_WALL") { if let Ok(w) = w.parse() { cfg.wall_cap = w; } }
@@ -299,11 +310,12 @@ pub fn run(args: &Args) -> i32 {
   let started = std::time::Instant::now();
   for g in &groups {
     let gfilter = |p: &Prog| filter(p) && (!g.gen_consumer_only || gen_consumer(p));
+    let gslice = g.slice.unwrap_or(slice);
     let mut programs = if g.inject {
       let base = programs_for(&g.enums, Slice::Wf, g.shapes, &gfilter);
-      inject_one_task(&base, slice)
+      inject_one_task(&base, gslice)
     } else {
-      programs_for(&g.enums, slice, g.shapes, &gfilter)
+      programs_for(&g.enums, gslice, g.shapes, &gfilter)
     };
     // a program explored in an earlier (deeper) group is not explored again
     if g.crashes == 0 && !g.faulty { programs.retain(|(p, _)| !all_programs.iter().any(|(q, _)| q == p)); }
@@ -376,7 +388,7 @@ fn replay(args: &Args, prop: Prop, file: &std::path::Path, mut rep: Report) -> i
     .iter().map(|e| PEvent::from_json(e).unwrap_or_else(|e| engine_error(&format!("replay event: {}", e)))).collect();
   let class = classify(&prog);
   let cfg = HistCfg {
-    prop, max_roots: 3, bottom_up: true, bu_then: true, bu_pre: true, bu_over_report: true, set_fail: true, crashes: 2, depth: path.len(),
+    prop, max_roots: 3, bottom_up: true, bu_then: true, bu_pre: true, bu_over_report: true, bu_twice: true, set_fail: true, crashes: 2, depth: path.len(),
     state_cap: 0, probe: prop == Prop::C03, scope_in_key: true, wall_cap: 60.0, collect_digests: false, find_path_hash: None,
   };
   install();
